@@ -134,6 +134,10 @@ def PositionExited.ofPosition (p : Position) : PositionExited :=
     timeExit := p.timeExchangeUpdate
     trades := p.trades }
 
+/-- `self.trades.push(trade.id.clone())` (position.rs:248). -/
+def Position.pushTrade (p : Position) (id : Nat) : Position :=
+  { p with trades := p.trades ++ [id] }
+
 /-- Increase arm, `(Buy, Buy) | (Sell, Sell)` (position.rs:253-265); `p` already carries the
 pushed trade id. -/
 def Position.increase (p : Position) (t : Trade) : Position :=
@@ -181,7 +185,7 @@ def Position.flip (p : Position) (t : Trade) : Position × PositionExited :=
 /-- `Position::update_from_trade` (position.rs:227-328). -/
 def Position.updateFromTrade (p : Position) (t : Trade) : Option Position × Option PositionExited :=
   if p.instrument ≠ t.instrument then (some p, none) else
-  let p := { p with trades := p.trades ++ [t.id] }
+  let p := p.pushTrade t.id
   if p.side = t.side then (some (p.increase t), none)
   else if p.quantityAbs > abs t.quantity then (some (p.reduce t), none)
   else if p.quantityAbs = abs t.quantity then (none, some (p.closeExact t))
